@@ -138,7 +138,8 @@ static void conc_case(ctx_t *c, long idx, rng_t *r) {
             total++;
         }
     }
-    out_begin_marker(c->family, idx);
+    { int anyilu = 0; for (int t = 0; t < T; t++) for (int k = 0; k < w[t].njobs; k++) anyilu |= jobs[t][k].kind == JOB_GSISX;
+      fprintf(stderr, "BEGIN %s %ld conc%s\n", c->family, idx, anyilu ? " has-ilu-job" : ""); fflush(stderr); }
     led_poison(0xA5);
     /* reference: each job alone */
     for (int t = 0; t < T; t++) for (int k = 0; k < w[t].njobs; k++) job_run(&jobs[t][k], &ref[t][k]);
@@ -191,7 +192,8 @@ static void hist_case(ctx_t *c, long idx, rng_t *r) {
     for (int k = 0; k < nun; k++) job_gen(r, c->thorough, c->ty ? c->ty : "dszc"[rng_int(r, 0, 3)], -1, &un[k]);
     int split = rng_int(r, 1, nun - 1);
     obuf_t o1, o2, o3; memset(&o1, 0, sizeof o1); memset(&o2, 0, sizeof o2); memset(&o3, 0, sizeof o3);
-    out_begin_marker(c->family, idx);
+    { int anyilu = J.kind == JOB_GSISX; for (int k = 0; k < nun; k++) anyilu |= un[k].kind == JOB_GSISX;
+      fprintf(stderr, "BEGIN %s %ld hist%s\n", c->family, idx, anyilu ? " has-ilu-job" : ""); fflush(stderr); }
     led_poison(0xA5);
     job_run(&J, &o1);
     for (int k = 0; k < split; k++) job_run(&un[k], &uo[k]);
